@@ -388,3 +388,8 @@ Theorem C05_fast_continue_session_ring :
     fsession_run am (setStreamDecode 0 0) calls = fexpected calls.
 Proof. exact fast_continue_session_ring. Qed.
 Print Assumptions C05_fast_continue_session_ring.
+
+(* the repaired header: LZ4_DECODER_RING_BUFFER_SIZE(n) - 65536 - n read from lz4.h by the translator *)
+Theorem C05_ring_margin_const : 29 <= DECODER_RING_MARGIN.
+Proof. exact ring_margin_const. Qed.
+Print Assumptions C05_ring_margin_const.
